@@ -27,7 +27,11 @@ func (w *World) SetValueInBuffer(b *Buffer, idx int, t ElemType, v Value, little
 	if t.IsBigInt() {
 		r = BigIntToRaw(t, v.(*big.Int))
 	} else {
-		r = NumberToRaw(t, v.(float64))
+		f := v.(float64)
+		if !t.IsFloat() && !math.IsInf(f, 0) && math.Abs(f) >= 9223372036854775808 {
+			w.HugeIntConversions++ // finite |x| >= 2^63 converted to an integer element type
+		}
+		r = NumberToRaw(t, f)
 	}
 	for i := 0; i < r.N; i++ {
 		var c byte
